@@ -34,7 +34,6 @@ theorem accept_aux (H : Addr.Hashes) (O : Oracles) (f : Flags) (q : Quirks) (c :
     (sig : Skeleton → SigFn) (t : Tx) (spent : List TxOut) (i : Nat) (inp : TxIn) (uo : TxOut)
     (hf : FlagsOk f)
     (hash_same : O.hash160 = H.hash160) (hash_len : ∀ b, (H.hash160 b).length = 20)
-    (no_cross : NoCross (keyTable H c.bech32 pubs))
     (pub_len : ∀ p ∈ pubs, p.length = 33)
     (nonzero : ∀ (k : Nat) (kr : KeyRec), (keyTable H c.bech32 pubs)[k]? = some kr →
       castToBool kr.h160 = true ∧ castToBool ((kr.pub.drop 1).take 32) = true)
@@ -46,15 +45,13 @@ theorem accept_aux (H : Addr.Hashes) (O : Oracles) (f : Flags) (q : Quirks) (c :
     verifyScript O (txCtxOf (signTx H c (keyTable H c.bech32 pubs) sig ms t (spent.map some)).1 i) uo.script f q = .ok () := by
   obtain ⟨h1, h2, h3⟩ := signed_at H c (keyTable H c.bech32 pubs) sig ms t spent i inp uo hwit hin hsp hms
   have keyfacts : ∀ (k : Nat) (kr : KeyRec), (keyTable H c.bech32 pubs)[k]? = some kr →
-      kr.pub.length = 33 ∧ kr.h160 = H.hash160 kr.pub ∧ kr.h160.length = 20 ∧ kr.segH160.length = 20 ∧
+      kr.pub.length = 33 ∧ kr.h160 = H.hash160 kr.pub ∧ kr.h160.length = 20 ∧ (c.bech32 = false → kr.segH160.length = 20) ∧
       (c.bech32 = false → kr.segH160 = H.hash160 ([0, 20] ++ kr.h160)) := by
     intro k kr hk
     obtain ⟨p, hp, rfl⟩ := keyTable_getElem? H c.bech32 pubs k kr hk
     have hp33 : p.length = 33 := pub_len p (List.mem_of_getElem? hp)
     refine ⟨hp33, rfl, hash_len _, ?_, ?_⟩
-    · rw [mkKey_seg_of_33 H _ p hp33]; split
-      · simp [zero20]
-      · exact hash_len _
+    · intro hb; rw [mkKey_seg_of_33 H _ p hp33]; simp [hb, hash_len]
     · intro hb; rw [mkKey_seg_of_33 H _ p hp33]; simp [mkKey, hb]
   obtain ⟨hL, hW, hT⟩ := hsigner
   generalize hT' : (signTx H c (keyTable H c.bech32 pubs) sig ms t (spent.map some)).1 = t' at h1 h2 h3
@@ -66,7 +63,7 @@ theorem accept_aux (H : Addr.Hashes) (O : Oracles) (f : Flags) (q : Quirks) (c :
   cases hown with
   | p2pkh k kr hk =>
     obtain ⟨_, _, hl, _, _⟩ := keyfacts k kr hk
-    obtain ⟨j, krj, hj, hje, hsi⟩ := signInput_p2pkh H c _ (sig (skeleton t)) i k kr val hk hl no_cross
+    obtain ⟨j, krj, hj, hje, hsi⟩ := signInput_p2pkh H c _ (sig (skeleton t)) i k kr val hk hl
     obtain ⟨hjl, hjh, _, _, _⟩ := keyfacts j krj hj
     obtain ⟨g, gne⟩ := hL j krj hj (by simp [p2pkhScript, hl])
     rw [hsi] at hctxS hctxW
@@ -77,7 +74,7 @@ theorem accept_aux (H : Addr.Hashes) (O : Oracles) (f : Flags) (q : Quirks) (c :
   | p2wpkh k kr hk =>
     obtain ⟨_, _, hl, _, _⟩ := keyfacts k kr hk
     obtain ⟨adr, ha⟩ := Option.isSome_iff_exists.mp haddr
-    obtain ⟨j, krj, hj, hje, hsi⟩ := signInput_p2wpkh H c _ (sig (skeleton t)) i k kr val hk hl no_cross adr ha
+    obtain ⟨j, krj, hj, hje, hsi⟩ := signInput_p2wpkh H c _ (sig (skeleton t)) i k kr val hk hl adr ha
     obtain ⟨hjl, hjh, _, _, _⟩ := keyfacts j krj hj
     have g := hW j krj hj (Or.inl (by simp [p2wpkhScript, hl]))
     have hs : inp.scriptSig = [] := by
@@ -93,8 +90,9 @@ theorem accept_aux (H : Addr.Hashes) (O : Oracles) (f : Flags) (q : Quirks) (c :
     exact verifyScript_p2wpkh O _ f q kr.h160 _ krj.pub hf hl (by simpa [hs] using hctxS) (by simpa using hctxW)
       (by omega) (by rw [hash_same, ← hjh, hje]) (nonzero k kr hk).1 g'
   | p2sh k kr hk hb =>
-    obtain ⟨_, _, _, hl, _⟩ := keyfacts k kr hk
-    obtain ⟨j, krj, hj, hje, hsi⟩ := signInput_p2sh H c _ (sig (skeleton t)) i k kr val hk hl no_cross hb
+    obtain ⟨_, _, _, hl', _⟩ := keyfacts k kr hk
+    have hl := hl' hb
+    obtain ⟨j, krj, hj, hje, hsi⟩ := signInput_p2sh H c _ (sig (skeleton t)) i k kr val hk hl hb
     obtain ⟨hjl, hjh, hjl20, _, hjs⟩ := keyfacts j krj hj
     have g := hW j krj hj (Or.inr (by simp [p2shScript, hl]))
     rw [hsi] at hctxS hctxW
